@@ -14,7 +14,9 @@ edit of those literals in the code changes these definitions and breaks the `*_s
 `Xsm/Proofs/Lifecycle.lean`.
 
 What the async engine needs beyond `St`: whether an `_event_loop_task` is attached (`loop`). A
-snapshot-restored interpreter has the persisted status and NO loop task; `start()` attaches one.
+snapshot-restored interpreter has the persisted status and NO loop task; `start()` attaches one —
+AFTER the initial entry and the eventless settling, and only if the interpreter is still running then
+(`asyncLoopCreated`): nothing is dequeued while `start()` is entering the initial states.
 Observation points are quiescent: after every operation the attached run loop has drained the queue
 (`lsettle`), exactly what the harness does (`_drain`) before it looks at the interpreter.
 -/
@@ -77,7 +79,9 @@ def opStart (fl : Flavor) (m : Machine) (u : UEnv) (l : LSt) : LSt :=
       (if l.st.status = "running" then lsettle .async m u { l with loop := true } else l)
     else if startRaises l then l
     else if l.st.status ≠ "uninitialized" then l
-    else { st := asyncStart m u l.st, loop := true }
+    -- the run-loop task is created only AFTER the initial entry and the settling, and only if the
+    -- interpreter is still running then (a start that failed or completed the machine attaches none)
+    else { st := asyncStart m u l.st, loop := asyncLoopCreated m u l.st }
 
 /-- `send_events(es)`: gate, append everything, then (sync) ONE drain / (async) the run loop's business -/
 def opSendMany (fl : Flavor) (m : Machine) (u : UEnv) (es : List Ev) (l : LSt) : LSt :=
@@ -154,9 +158,13 @@ def drainLog (m : Machine) (u : UEnv) : Nat → St → List Ev
         q.ev :: (if (syncMacro m u q.ev { s with queue := rest }).err.isSome then []
                  else drainLog m u budget (syncMacro m u q.ev { s with queue := rest }))
 
-/-- the events `asyncDrain` (the run loop) dequeues and PROCESSES, in order; an event dequeued while
-    the chain breaker is tripped is dropped unprocessed and does not appear -/
-def asyncLog (m : Machine) (u : UEnv) : Nat → St → List Ev
+/-- the run loop hands the dequeued entry `q` to `on_event_received` / `_process_event`: always, unless
+    the chain breaker is tripped AND `q` is itself self-raised (an external event is never dropped) -/
+def asyncReceives (m : Machine) (q : QEv) (s : St) : Bool := !(decide (s.raiseDepth > m.maxIterations) && q.self)
+
+/-- the entries `asyncDrain` (the run loop) dequeues and PROCESSES, in order, with their origin flag; a
+    SELF-RAISED event dequeued while the chain breaker is tripped is dropped unprocessed and does not appear -/
+def asyncLogQ (m : Machine) (u : UEnv) : Nat → St → List QEv
   | 0, _ => []
   | fuel + 1, s =>
     if s.status ≠ "running" then []
@@ -164,8 +172,11 @@ def asyncLog (m : Machine) (u : UEnv) : Nat → St → List Ev
       match s.queue with
       | [] => []
       | q :: rest =>
-        (if s.raiseDepth > m.maxIterations then [] else [q.ev])
-          ++ asyncLog m u fuel (asyncStep m u q.ev { s with queue := rest })
+        (if asyncReceives m q s then [q] else [])
+          ++ asyncLogQ m u fuel (asyncStep m u q { s with queue := rest })
+
+/-- the events the run loop processes, in order -/
+def asyncLog (m : Machine) (u : UEnv) (fuel : Nat) (s : St) : List Ev := (asyncLogQ m u fuel s).map (·.ev)
 
 -- the re-entrancy flag protocol of the sync engine, two threads, statement granularity ---------------
 namespace SyncFlag
